@@ -117,9 +117,9 @@ E(vp_h16d_i16_u16, (prop_parse<int16_t, char16_t, 3>(in, out) != 0)) E(vp_h16d_u
 //@ OBL {"name": "h16c_bool", "prop": "vp_h16c_bool", "in": 24, "out": 16, "unwind": 12, "backends": ["kissat", "default"], "cap_s": 900, "assume": "va_n4", "bounds": "every char string of length <= 4 followed by 4 more symbolic characters in the buffer", "desc": "To(string_view, bool&) == reference (0|1, true|false any case, digit runs out_of_range)"}
 //@ OBL {"name": "h16c_bool16", "prop": "vp_h16c_bool16", "in": 24, "out": 16, "unwind": 12, "backends": ["kissat", "default"], "cap_s": 900, "assume": "va_n4", "bounds": "every char16_t string of length <= 4", "desc": "bool parser, char16_t"}
 //@ OBL {"name": "h16c_bool32", "prop": "vp_h16c_bool32", "in": 40, "out": 16, "unwind": 12, "backends": ["kissat", "default"], "cap_s": 900, "assume": "va_n4", "bounds": "every char32_t string of length <= 4", "desc": "bool parser, char32_t"}
-//@ OBL {"name": "h16d_i16_u16", "prop": "vp_h16d_i16_u16", "in": 24, "out": 16, "unwind": 12, "backends": ["kissat", "default"], "cap_s": 3600, "assume": "va_n3", "bounds": "every char16_t string of length <= 2 (thorough: 3) (ALL 65536 unit values per position)", "desc": "numeric parser on UTF-16 text == reference on code units (only U+0020/U+0009 are blanks)", "cassume": ["in[0] <= 2"], "tier": "thorough"}
-//@ OBL {"name": "h16d_u8_u32", "prop": "vp_h16d_u8_u32", "in": 24, "out": 16, "unwind": 12, "backends": ["kissat", "default"], "cap_s": 3600, "assume": "va_n3", "bounds": "every char32_t string of length <= 2 (thorough: 3)", "desc": "numeric parser on UTF-32 text", "cassume": ["in[0] <= 2"], "tier": "thorough"}
-//@ OBL {"name": "h16d_i8_w", "prop": "vp_h16d_i8_w", "in": 24, "out": 16, "unwind": 12, "backends": ["kissat", "default"], "cap_s": 3600, "assume": "va_n3", "bounds": "every wchar_t string of length <= 2 (thorough: 3)", "desc": "numeric parser on wchar_t text", "cassume": ["in[0] <= 2"], "tier": "thorough"}
+//@ OBL {"name": "h16d_i16_u16", "prop": "vp_h16d_i16_u16", "in": 24, "out": 16, "unwind": 12, "backends": ["kissat", "default"], "cap_s": 3600, "assume": "va_n3", "bounds": "every char16_t string of length <= 2 (thorough: 3) (ALL 65536 unit values per position)", "desc": "numeric parser on UTF-16 text == reference on code units (only U+0020/U+0009 are blanks)", "cassume": ["in[0] <= 2"], "tier": "open"}
+//@ OBL {"name": "h16d_u8_u32", "prop": "vp_h16d_u8_u32", "in": 24, "out": 16, "unwind": 12, "backends": ["kissat", "default"], "cap_s": 3600, "assume": "va_n3", "bounds": "every char32_t string of length <= 2 (thorough: 3)", "desc": "numeric parser on UTF-32 text", "cassume": ["in[0] <= 2"], "tier": "open"}
+//@ OBL {"name": "h16d_i8_w", "prop": "vp_h16d_i8_w", "in": 24, "out": 16, "unwind": 12, "backends": ["kissat", "default"], "cap_s": 3600, "assume": "va_n3", "bounds": "every wchar_t string of length <= 2 (thorough: 3)", "desc": "numeric parser on wchar_t text", "cassume": ["in[0] <= 2"], "tier": "open"}
 // literals from tests/unit_tests/convert_tests/convert_fundamentals_tests.cpp
 //@ VEC * 032d3132000000000000000000000000000000000000
 //@ VEC * 0520203132370000000000000000000000000000
